@@ -46,6 +46,14 @@ func (vc *VC) calleeKey(c *ssa.CallCommon) (key string, fn *ssa.Function, displa
 			if g, ok := ld.X.(*ssa.Global); ok {
 				return g.Pkg.Pkg.Path() + "." + g.Name(), nil, "var " + g.Name()
 			}
+			// call through a function-typed struct field
+			if fa, ok := ld.X.(*ssa.FieldAddr); ok {
+				st := fa.X.Type().Underlying().(*types.Pointer).Elem()
+				if n, ok := st.(*types.Named); ok {
+					k := "field:" + n.Obj().Name() + "." + st.Underlying().(*types.Struct).Field(fa.Field).Name()
+					return k, nil, k
+				}
+			}
 		}
 		return "", nil, "dynamic call"
 	}
